@@ -85,8 +85,7 @@ def _case(draw, knob):
     states = {}
     for k in others:
         # core: every pre-state except the two shapes of the open finding "a FunctionDef target is never replaced"
-        # ... and except a placeholder binding in a function-kind file (finding KF-N06, knob `placeholder_function`)
-        opts = list(project.STATES) if k == "class" else [s_ for s_ in project.STATES if s_ not in ("stale", "placeholder")]
+        opts = list(project.STATES) if k == "class" else [s_ for s_ in project.STATES if s_ != "stale"]
         states[k] = draw(st.sampled_from(opts))
     if method and states.get("function") in ("missing", "empty", "absent", "placeholder"):
         # core: a method target must already exist in its class (creating it is a shape of its own)
